@@ -27,7 +27,8 @@ EXPLANATION = (
     " (R8) the read path keeps no schema memo (C02.R6); (R9) who may produce bounds: every DataFile's bounds come from _compute_column_bounds, the manifest decoder or a copy."
     ' R4 also requires the encoding to be unaltered between producer and manifest (no second codec, function-value codec passing followed); R9 is strict: one bounds producer.'
     " (R10) membership compares like equality (C12.R18) [D20, fixed]; (R11) the row filter's NULL semantics the pruning rules assume (C12.R3). R5 accepts pc.min_max(col)['min'|'max'] with the matching field."
-    ' R4 reads codec tables iterated row by row (unrolled), canonicalises payloads through one-parameter helpers and isoformat defaults, and has a flow form for per-branch tag locals.')
+    ' R4 reads codec tables iterated row by row (unrolled), canonicalises payloads through one-parameter helpers and isoformat defaults, and has a flow form for per-branch tag locals.'
+    " R4: a decoded payload VALUE is never truth-tested ('' / 0 / 0.0 / False are bounds); R5: fields and columns iterated together come from one (identically filtered) sequence.")
 NOT_DECIDED = ("pc.min/max and Arrow comparison semantics (e.g. int64 beyond 2^53 against a float literal); end-to-end "
                "pruned-vs-unpruned equality at run time")
 ASSUMPTIONS = ["values of one column are totally ordered except float NaN; pc.min/pc.max ignore NULL and NaN rows"]
